@@ -127,7 +127,7 @@ def routeCase : P String := do
   let first ← peek
   let cfg := first == "cfg"
   -- the vehicle: given directly (built in-process), or selected from a configured library by the query
-  let (kind, vres, caches) ← (do
+  let (kind, vres, caches, built) ← (do
     if cfg then
       let _ ← next
       let lib : List (Nat × Kind × Vehicle Float × Caches Key Float) ←
@@ -136,15 +136,21 @@ def routeCase : P String := do
       let q ← queryP
       let vres := selectVehicle (lib.map fun (p : Nat × Kind × Vehicle Float × Caches Key Float) => (p.1, p.2.2.1)) nm q
       let sel := match nm with
-        | .name id =>
-          libraryGet (lib.map fun (p : Nat × Kind × Vehicle Float × Caches Key Float) => (p.1, (p.2.1, p.2.2.2))) id
+        | .name id => libraryGet lib id
         | _ => none
-      let (kind, caches) := sel.getD (Kind.ice, ({ main := none, sustain := none } : Caches Key Float))
-      pure (kind, vres, caches)
+      -- the vehicle as the builder left it (before the query): a battery vehicle starts full
+      let built := match sel with
+        | some (.ice, _, _) => "built - | "
+        | some (_, v, _) => "built " ++ floatOut v.initialState.soc ++ " | "
+        | none => "built - | "
+      let (kind, caches) := match sel with
+        | some (k, _, c) => (k, c)
+        | none => (Kind.ice, ({ main := none, sustain := none } : Caches Key Float))
+      pure (kind, vres, caches, built)
     else
       let (kind, v0, caches) ← vehicleP
       let q ← queryP
-      pure (kind, v0.updateFromQuery q, caches))
+      pure (kind, v0.updateFromQuery q, caches, ""))
   -- service
   let tmsu ← unitP SpeedUnit.ofName?
   let gt ← optOf (listOf float)
@@ -177,7 +183,7 @@ def routeCase : P String := do
   endOfLine
   match engRes, vres with
   | .error _, _ => pure "engine_rejected"
-  | .ok _, .error _ => pure "rejected"
+  | .ok _, .error _ => pure (built ++ "rejected")
   | .ok (eng, maxSpeed), .ok v =>
     let s0 := v.initialStateWith socOverride
     let noCache := caches.main.isNone && caches.sustain.isNone
@@ -207,7 +213,7 @@ def routeCase : P String := do
       | .ok s => "est ok " ++ showState kind s
     -- a configured model is only reachable as a `TraversalModel`: no direct best-case calls
     let best := if cfg then [] else ["bc " ++ floatOut bce ++ " " ++ bcu.name, "bcs " ++ showState kind bcs]
-    pure (" | ".intercalate (["init " ++ showState kind s0] ++ steps ++ best ++ [est]))
+    pure (built ++ " | ".intercalate (["init " ++ showState kind s0] ++ steps ++ best ++ [est]))
 
 def case : P String := do
   let first ← peek
